@@ -1,5 +1,6 @@
 import Svgbob.Proofs.Shift
 import Svgbob.Proofs.ForestMove
+import Svgbob.Proofs.NodeMove
 import Svgbob.Proofs.MoveAll2
 import Svgbob.Proofs.FrontShift
 /-!
@@ -17,11 +18,14 @@ points, decided over the regenerated tables and preserved by every merge).
 The front end is covered at the level of rows (`rows_to_fragments_equivariant`: `n` blank rows in
 front and every non-empty row indented by `k` blanks, quoted regions included, give the moved cells
 and quoted texts and hence the moved fragments; the environment must say that a blank is white space
-and one column wide). Not covered by a theorem: splitting the text into rows and the legend cut-off
-(a legend block is not moved with the drawing), and the back end (moved fragments render with
-coordinates offset by `scale·(k, 2n)` and a larger canvas). Those are checked on the implementation
-by the shift oracle at offsets up to (400, 200), and the model is tied to the implementation
-byte-for-byte there.
+and one column wide). The back end is `document_of_the_moved_drawing` (`Proofs/NodeMove`): the
+document built from the moved cells, fragments and groups has a canvas grown by `scale·(k, 2n)` cells
+and, node for node and in the same order, the old drawing with exactly that offset added to every
+abscissa / ordinate (`Node.moveNum`) — kinds, classes, sizes, radii, flags, texts, nesting, the style
+sheet and the marker definitions are the same. Not covered by a theorem: splitting the text into
+rows and the legend cut-off (a legend block is not moved with the drawing). Those are checked on the
+implementation by the shift oracle at offsets up to (400, 200), and the model is tied to the
+implementation byte-for-byte there.
 -/
 namespace Svgbob.C06
 open Svgbob
@@ -139,5 +143,54 @@ theorem nesting_is_position_independent (len : List Char → Nat) (unit : Int) (
     encloseRecursive len unit (trees.map (FTree.move k n)) =
       (encloseRecursive len unit trees).map (FTree.move k n) :=
   encloseRecursive_move len unit k n trees h
+
+/-! ### the back end: from moved fragments to the moved document -/
+
+/-- **one fragment**: the node of the moved fragment is the node of the fragment with
+`scale·(k, 2n)` cells added to its coordinates (`x x1 x2 cx` / `y y1 y2 cy`, both points of an arc's
+path, every point of a polygon) — widths, heights, radii, classes, flags and text untouched -/
+theorem node_of_a_moved_fragment (K k n : Int) (f : Frag) :
+    ((f.move k n).scale K).toNode =
+      Node.moveNum (1000 * k * K) (2000 * n * K) ((f.scale K).toNode) :=
+  Frag.toNode_move K k n f
+
+/-- **the whole document of the moved drawing** (no overridden size, at least one occupied cell):
+canvas grown by `scale·(k, 2n)` cells; the nested top-level nodes and the groups are the old ones,
+in the same order, each coordinate offset by exactly that much; everything else is the same -/
+theorem document_of_the_moved_drawing (len : List Char → Nat) (cfg : Cfg) (k n : Int)
+    (cells : List (Cell × Char)) (css : List (List Char × List Char)) (accepted : List Frag)
+    (groups : List (List Frag)) (hov : cfg.overrideSize = none) (hne : cells ≠ [])
+    (hm : ∀ f ∈ accepted, f.Movable) :
+    svgRoot len cfg (Span.shift k n cells) css (accepted.map (Frag.move k n))
+        (groups.map (List.map (Frag.move k n))) =
+      assembleRoot cfg css
+        ((canvasSize cfg cells).1 + 1000 * k * cfg.scaleN,
+         (canvasSize cfg cells).2 + 2000 * n * cfg.scaleN)
+        ((drawingNodes len cfg.scaleN accepted groups).map
+          (Node.moveNum (1000 * k * cfg.scaleN) (2000 * n * cfg.scaleN))) :=
+  svgRoot_move len cfg k n cells css accepted groups hov hne hm
+
+/-- … and the unmoved document is the same assembly without the offsets, so the two differ in the
+canvas size and the coordinates only -/
+theorem document_of_the_drawing (len : List Char → Nat) (cfg : Cfg) (cells : List (Cell × Char))
+    (css : List (List Char × List Char)) (accepted : List Frag) (groups : List (List Frag))
+    (hov : cfg.overrideSize = none) :
+    svgRoot len cfg cells css accepted groups =
+      assembleRoot cfg css (canvasSize cfg cells) (drawingNodes len cfg.scaleN accepted groups) :=
+  svgRoot_eq_assemble len cfg cells css accepted groups hov
+
+/-- test (labelled as test): a tagged box with a line and an arrow head, moved by (3, 2) at scale 8 —
+the hypotheses are satisfiable and the statement is about a non-trivial document -/
+def testFrags : List Frag :=
+  [.rect ⟨0, 0⟩ ⟨8000, 8000⟩ false none false, .cellText ⟨1, 1⟩ "{a}".toList,
+   .line ⟨500, 1000⟩ ⟨4500, 1000⟩ true, .polygon [⟨0, 0⟩, ⟨500, 1000⟩, ⟨0, 2000⟩] true []]
+
+example : ∀ f ∈ testFrags, f.Movable := by
+  intro f hf
+  simp only [testFrags, List.mem_cons, List.not_mem_nil, or_false] at hf
+  rcases hf with rfl | rfl | rfl | rfl <;> simp [Frag.Movable]
+
+example : (fragmentsToNodes (fun c => c.length) 8 (testFrags.map (Frag.move 3 2))).length = 3 := by
+  decide +kernel
 
 end Svgbob.C06
